@@ -123,10 +123,14 @@ def levelCi (r : Seg) : Option Rat :=
   let hi := r.ciHi.getD 0
   some (if hi < 0 then -1 else if lo > 0 then 1 else 0)
 
-/-- `sem`: log2 ± zscore·sem, zscore read from the source -/
+/-- `sem`: log2 ± zscore·sem, zscore read from the source (round 4: a missing sem gives the neutral level, as numpy's
+    comparisons with NaN do; before, the model read it as sem = 0) -/
 def levelSem (r : Seg) : Option Rat :=
-  let m := r.sem.getD 0 * Generated.SEM_ZSCORE
-  some (if r.log2 + m < 0 then -1 else if r.log2 - m > 0 then 1 else 0)
+  match r.sem with
+  | none => some 0     -- a missing sem (NaN): both comparisons `log2 ± NaN ≷ 0` are False, the row stays neutral
+  | some s =>
+    let m := s * Generated.SEM_ZSCORE
+    some (if r.log2 + m < 0 then -1 else if r.log2 - m > 0 then 1 else 0)
 
 /-- `ampdel`: −1 for cn = 0, +1 for cn ≥ 5 (cut-offs read from the source), else 0 -/
 def levelAmpdel (r : Seg) : Option Rat :=
